@@ -50,6 +50,7 @@ pub fn classify(case: &Case, prog: &Prog, cx: &mut Cx) {
     cx.class_if(st.joins > 0, "async-join");
     cx.class_if(st.join_interleavable, "async-join-interleavable");
     cx.class_if(st.joins_carry > 0, "async-join-carried-frame");
+    cx.class_if(st.joins_migrating > 0, "async-join-polls-migrate-threads");
     cx.class_if(hop, "thread-hop");
     cx.class_if(st.hops_carry > 0, "thread-hop-carried-frame");
     cx.class_if(st.hops_bare > 0, "thread-hop-no-frame");
